@@ -79,7 +79,7 @@ func init() {
 			{Name: "second init closes but is then processed and acknowledged again", File: c19TwGo, Rule: "C19-R1", Key: "ack-only-on-first-successful-init",
 				Old: "\t\t\tNewCloseReason(4429, \"Too many initialisation requests\"),\n\t\t)\n\t\treturn ctx, nil\n\t}", New: "\t\t\tNewCloseReason(4429, \"Too many initialisation requests\"),\n\t\t)\n\t}"},
 			{Name: "connection marked initialised before the init callback decided", File: c19TwGo, Rule: "C19-R1", Key: "init-error-leaves-uninitialized",
-				Old: "\tinitCtx := ctx\n\tif p.initFunc != nil && len(payload) > 0 {", New: "\tinitCtx := ctx\n\tp.connectionInitialized = true\n\tif p.initFunc != nil && len(payload) > 0 {"},
+				Old: "\tinitCtx := ctx\n\tif p.initFunc != nil {", New: "\tinitCtx := ctx\n\tp.connectionInitialized = true\n\tif p.initFunc != nil {"},
 			{Name: "failed init falls through to the heartbeat", File: c19TwGo, Rule: "C19-R1", Key: "heartbeat-requires-init-ok",
 				Old: "\t\t\t// would otherwise crash the heartbeat goroutine on <-ctx.Done().\n\t\t\treturn err\n", New: "\t\t\t// would otherwise crash the heartbeat goroutine on <-ctx.Done().\n"},
 			{Name: "unknown message type only logged", File: c19TwGo, Rule: "C19-R1", Key: "unknown-type-closes-4400",
